@@ -24,8 +24,37 @@ set-free values).
 
 NOT PROVED HERE (correspondence and predicate search only): values containing sets (the
 decoder rebuilds the set through the hash oracle; iteration order ≠ storage order).
+
+THE BYTE LEVEL.  Every theorem below is about token trees, so "the bytes are valid JSON" has
+no theorem of its own.  It rests on three things, each visible here or checked on every run:
+(1) `encoding/json` is the lexer: the harness lexes the REAL output of every `Marshal` call
+with `encoding/json`'s `Decoder` (one value, then EOF) and fails the check at site `valid-json`
+if it does not lex — searched, not proved; since harness/c15names.go the generated attribute
+names, map keys and strings include control characters, DEL, U+2028, non-printable astral
+code points, quotes and backslashes.  (2) A cty string becomes bytes in exactly one place,
+`json.Marshal(val.AsString())` — Go's own JSON string encoder, trusted — and BOTH object
+attribute names and map keys reach the buffer through that same place, by a recursive
+`marshal(cty.StringVal(k), cty.String, …)` / `marshal(ek, ek.Type(), …)`; everything else the
+encoder writes is a punctuation / keyword literal, math/big's decimal text, or the output of
+`MarshalType` / `json.Marshal` of a capsule.  That is a REGENERATED FACT
+(`Generated.jsonEmitEvents`, re-read from cty/json/marshal.go by extract/jsonemit.go on every
+check; any other use of the output buffer makes the extractor fail closed) and
+`strings_names_keys_share_one_encoder` decides it: a change such as writing attribute names
+with `strconv.Quote` breaks that theorem before any input is generated.  (3) math/big's
+`Text('f', -1)` of a finite number is a JSON number literal (digits, optional '-', optional
+fraction): modelled (`Num.textF`) and diffed on every run, its syntax not proved.
+
+`impliedType` is type_implied.go WITHOUT its depth counter; the function the code has and the
+harness compares is `impliedTypeGo` (`CtyModel/JsonD15.lean`, the limit re-read from the source):
+`implied_type_go_exact` ties the two.
 -/
 import CtyModel.Lemmas.JsonValRT
+import CtyModel.Lemmas.d15Implied
+import CtyModel.Lemmas.d15Mirror
+import CtyModel.Lemmas.d15Emit
+import CtyModel.Lemmas.d15DocU
+import CtyModel.Lemmas.d15Reject
+import CtyModel.Lemmas.d15DocDup
 import CtyModel.Lemmas.JsonValStrip
 import CtyModel.Lemmas.JsonValNoOpt
 import CtyModel.Lemmas.JsonValReject
@@ -234,6 +263,80 @@ theorem mirror_structure (env : JEnv) (v : Value) (j : Json) (hd : hasDyn v.ty =
     (isKnown_of_whollyKnown hk (isMarked_of_containsMarked hm))] at hj
   exact mirror_known env v.v v.ty j ⟨hd, hs, hw, hk, hm⟩ hj
 
+/-- The same clause for ANY constraint (audit C15 item 2, missing theorem (b)): whatever the
+constraint is — placeholders at any position — whenever the encoder returns a document for a
+value without set types, that document has the structure `mirrorsW` describes: exactly at the
+positions where the constraint is the placeholder (and the value's type is not) a two-member
+object `{"value": x, "type": τ}`, τ being the type document `MarshalType` gives for the value's
+type there and x the encoding of the value against its OWN type; below and elsewhere null as
+null, a bool / string as itself, a number as its decimal text, a list or tuple as an array
+with one entry per element in order, a map or object as an object with exactly the value's
+keys in order.  No hypothesis on knownness, marks or conformance is needed: the encoder
+answers `ok` for nothing else. -/
+theorem mirror_structure_any_constraint (env : JEnv) (v : Value) (t : Ty) (j : Json)
+    (hs : setFree v.ty = true) (hj : marshal env v t = .ok j) : mirrorsW t v.ty v.v j = true :=
+  mirrorW_entry env v.v t v.ty j hs hj
+
+/-- … of which the plain mirror is the placeholder-free instance, now for ANY placeholder-free
+constraint (not only the value's own type; optional-attribute annotations allowed) and without
+the well-formedness / knownness / unmarkedness hypotheses of `mirror_structure`: those follow
+from the encoder having returned a document. -/
+theorem mirror_structure_placeholder_free (env : JEnv) (v : Value) (t : Ty) (j : Json)
+    (hd : hasDyn t = false) (hs : setFree v.ty = true) (hj : marshal env v t = .ok j) :
+    mirrors v.v j = true :=
+  mirrors_of_mirrorsW v.v t v.ty j hd (mirror_structure_any_constraint env v t j hs hj)
+
+/-- non-vacuous, and what it looks like: the sample value of the non-vacuity section (a
+placeholder at the top-level attribute `a` and inside the map) is encoded with two wrappers -/
+example : marshal env0 ⟨.object ["a", "b"] [.list .string, .map .bool] [false, false],
+      .smap ["a", "b"] [.seq [.s "x", .null], .smap ["k"] [.b true]]⟩
+      (.object ["a", "b"] [.dyn, .map .dyn] [false, false]) =
+    .ok (.obj ["a", "b"] [.obj ["value", "type"] [.arr [.str "x", .null], .arr [.str "list", .str "string"]],
+      .obj ["k"] [.obj ["value", "type"] [.bool true, .str "bool"]]]) := by rfl
+
+/-- … and a document WITHOUT the wrapper at a placeholder position does not pass (the seeded
+change C15-dynamic-wrapper-skipped-for-typed-nulls in one instance: a typed null written
+bare) -/
+example : mirrorsW .dyn .string .null .null = false ∧
+    mirrorsW .dyn .string .null (.obj ["value", "type"] [.null, .str "string"]) = true ∧
+    mirrorsW .dyn .string .null (.obj ["value", "type"] [.null, .str "number"]) = false := by decide
+
+/-- against a placeholder-free constraint `mirrorsW` is the plain mirror: no wrapper anywhere
+(the instance `mirror_structure` is about) -/
+example : mirrorsW (.tuple [.number, .list .string]) (.tuple [.number, .list .string])
+      (.seq [.n (.fin false 3 (-1) 53), .seq [.s "a"]]) (.arr [.num "1.5", .arr [.str "a"]]) = true ∧
+    mirrors (.seq [.n (.fin false 3 (-1) 53), .seq [.s "a"]]) (.arr [.num "1.5", .arr [.str "a"]]) = true := by
+  decide +kernel
+
+/-! ## The byte level: where strings, attribute names and map keys become bytes -/
+
+/-- REGENERATED FACT about cty/json/marshal.go (see the header, "THE BYTE LEVEL"), decided
+over the table extracted on every check:
+* every write into the output buffer is a literal of `JsonEmit.literalWrites` (JSON
+  punctuation, `null` / `true` / `false`, the two halves of the wrapper object) or one of the
+  four computed writes (`json.Marshal` of the string, `Text('f', -1)` of the number,
+  `json.Marshal` of a capsule's value, `MarshalType` of the type);
+* the thing done immediately before a `:` is written — how a member NAME reaches the output —
+  is, in the map branch and in the object branch alike, a recursive call of `marshal` with a
+  string value and a string type (`ek` is the key `ElementIterator` yields for a map, a
+  `cty.String`; `cty.StringVal(k)` the attribute name);
+* the `cty.String` branch of `marshal` does exactly one thing with the buffer: it writes the
+  result of `json.Marshal(val.AsString())`.
+So attribute names and map keys are escaped by the same call that escapes string values.
+The seeded change C15-object-attr-names-go-quoted-in-json-marshal (`b.WriteString(strconv.Quote(k))`)
+falsifies the first two conjuncts. -/
+theorem strings_names_keys_share_one_encoder :
+    JsonEmit.allWritesOk Generated.jsonEmitEvents = true ∧
+    JsonEmit.nameEmitters Generated.jsonEmitEvents =
+      [("t.IsMapType()", "call", "marshal", "ek", "ek.Type()"),
+       ("t.IsObjectType()", "call", "marshal", "cty.StringVal(k)", "cty.String")] ∧
+    JsonEmit.branchEvents "cty.String" Generated.jsonEmitEvents = [JsonEmit.stringWrite] := by
+  decide
+
+/-- the predicate is not vacuous: the seeded shape is refused -/
+example : JsonEmit.allWritesOk
+    [⟨"marshal", "t.IsObjectType()", "write", "WriteString", "strconv.Quote(k)", ""⟩] = false := by decide
+
 /-! ## Values JSON cannot represent -/
 
 /-- A value that contains a mark, an unknown or an infinite number ANYWHERE is never
@@ -265,14 +368,45 @@ example :
     «matches» t v.ty = true ∧ wfP v.ty v.v = true ∧ v.v.containsMarked = true ∧
     v.v.whollyKnown = false ∧ hasInf v.v = true := by decide
 
+/-- The same WITHOUT the set-free side condition (audit C15 item 3): sets anywhere in the value.
+The set branch of `marshal` adds only the iteration order, which goes through the hash
+oracle; `htot` says the oracle answers for every member — the real `Value.Hash` is total, and
+the harness supplies its answers — and then the refusal of a value holding a mark, an unknown
+or an infinity is still an error, never a panic.  (Capsule-free stays: a capsule's payload
+goes through `encoding/json` reflection, which is not modelled.) -/
+theorem rejects_unknown_marked_with_sets (env : JEnv) (htot : ∀ t p, (env.hkey t p).isSome = true)
+    (v : Value) (t : Ty) (hwt : wf t = true) (hwv : wf v.ty = true) (hcaps : hasCapsule v.ty = false)
+    (hconf : «matches» t v.ty = true) (hwf : wfP v.ty v.v = true)
+    (h : v.v.containsMarked = true ∨ v.v.whollyKnown = false ∨ hasInf v.v = true) :
+    ∃ c, marshal env v t = .err c := by
+  rcases okErrS_marshal env htot v t ⟨hwt, hwv, hcaps, hconf, hwf⟩ with ⟨j, hj⟩ | hc
+  · exact absurd hj (noOk_marshal env v t h j)
+  · exact hc
+
+/-- a total oracle for instances -/
+def envTot : JEnv := { norm := id, hkey := fun _ _ => some (0, "h") }
+
+/-- satisfiable with a set: an infinity and an unknown inside a set of numbers inside a tuple,
+against a constraint with a placeholder; and the encoder's answer is the error -/
+example :
+    let v : Value := ⟨.tuple [.set .number, .string], .seq [.sset [0, 0] [.n (.inf false), .unk .unref], .s "a"]⟩
+    let t : Ty := .tuple [.dyn, .string]
+    (∀ t p, (envTot.hkey t p).isSome = true) ∧ wf t = true ∧ wf v.ty = true ∧ hasCapsule v.ty = false ∧
+    setFree v.ty = false ∧ «matches» t v.ty = true ∧ wfP v.ty v.v = true ∧ v.v.whollyKnown = false ∧
+    hasInf v.v = true ∧ (∃ c, marshal envTot v t = .err c) :=
+  ⟨fun _ _ => rfl, by decide, by decide, by decide, by decide, by decide, by decide, by decide, by decide, ⟨_, rfl⟩⟩
+
 /-! ## Documents -/
 
 /-- THE FULL STATEMENT of the document clause ("for any valid JSON document with
 representable numbers and no conflicting duplicate keys the implied type is the document's
 structural type, unmarshalling with it succeeds and re-marshalling gives the same document
 up to key order, number spelling and string normalization"), for an idempotent `norm`.
-NOT PROVED in this generality (unsorted keys, duplicates with equal types) and, since /repo
-5aa0ac9, no counterexample is known: the former one (`{"e\u0301": null}`) now passes, see
+PROVED: `doc_roundtrip_holds` / `doc_roundtrip_full` below (keys in any order, keys repeated —
+also keys that coincide only after normalisation — as long as the members under one
+normalised key have `Equals` implied types); about the recursion WITHOUT the nesting limit of
+the code's `ImpliedType` (`doc_roundtrip_full_go` adds it).  Since /repo
+5aa0ac9 no counterexample is known: the former one (`{"e\u0301": null}`) now passes, see
 `doc_roundtrip_nonNFC_key`.  The harness evaluates this check on every generated document. -/
 def doc_roundtrip : Prop :=
   ∀ (env : JEnv) (d : Json), (∀ s, env.norm (env.norm s) = env.norm s) →
@@ -303,6 +437,114 @@ theorem doc_roundtrip_partial_check (env : JEnv) (d : Json) (h : docOK env d = t
     docCheck env d = true := by
   obtain ⟨hi, v, d', hu, _, hm, he⟩ := doc_roundtrip_partial env d h
   simp [docCheck, hi, hu, hm, he]
+
+/-- an idempotent environment with one non-trivial normal form ("e" + combining acute ↦ "é") -/
+def envNFC0 : JEnv :=
+  { norm := fun s => if s = "e\u0301" then "\u00e9" else s, hkey := fun _ _ => none }
+
+/-- KEYS IN ANY ORDER (audit C15 item 1, missing theorem (a)).  `docOK` above wants the keys of
+every object already sorted, which almost no real document is (`{"b":1,"a":2}` fails it).
+This is the statement without that demand: for every document (any depth) in which the
+normal forms of the keys of each object are DISTINCT — in any order — and whose numbers are
+representable, and an idempotent `norm`: the implied type IS the structural type (`structTyU`:
+the object type over the sorted normalised keys), unmarshalling with it succeeds, the value
+has exactly that type, and re-marshalling returns the same document up to key order, number
+spelling and string normalisation (`canon` sorts the members and normalises keys and strings,
+`jsonEquiv` compares numbers as 512-bit parses) — the check `docCheckFull` of the full
+statement.  (`doc_roundtrip_full` drops "distinct" too.) -/
+theorem doc_roundtrip_any_key_order (env : JEnv) (d : Json)
+    (hid : ∀ s, env.norm (env.norm s) = env.norm s) (h : docOKU env d = true) :
+    impliedType env d = .ok (structTyU env.norm d) ∧
+    ∃ v d', unmarshalTop env d (structTyU env.norm d) = .ok v ∧ v.ty = structTyU env.norm d ∧
+      marshal env v (structTyU env.norm d) = .ok d' ∧ jsonEquiv (canon env d') (canon env d) = true := by
+  obtain ⟨p, d', hi, hu, hm, hk, hmar, he⟩ := doc_rtU env hid d h
+  have hu' : unmarshalTop env d (structTyU env.norm d) = .ok ⟨structTyU env.norm d, p⟩ := by
+    unfold unmarshalTop
+    rw [stripOpt_id_of_noOpt _ (structTyU_noOpt env.norm d)]
+    exact hu
+  refine ⟨hi, ⟨structTyU env.norm d, p⟩, d', hu', rfl, ?_, he⟩
+  unfold marshal
+  rw [marshalEntry_same (structTyU env.norm d) p _ hm hk]
+  exact hmar
+
+/-- the same, as the check of the full statement that the harness evaluates on every document -/
+theorem doc_roundtrip_any_key_order_check (env : JEnv) (d : Json)
+    (hid : ∀ s, env.norm (env.norm s) = env.norm s) (h : docOKU env d = true) :
+    docCheckFull env d = true := by
+  obtain ⟨hi, v, d', hu, _, hm, he⟩ := doc_roundtrip_any_key_order env d hid h
+  simp [docCheckFull, hi, hu, hm, he]
+
+/-- … and with the code's `ImpliedType` / `SimpleJSONValue` (nesting limit, see below) -/
+theorem doc_roundtrip_any_key_order_go (env : JEnv) (d : Json)
+    (hid : ∀ s, env.norm (env.norm s) = env.norm s) (h : docOKU env d = true)
+    (hd : nest d ≤ Generated.jsonMaxImpliedTypeDepth) :
+    impliedTypeGo env d = .ok (structTyU env.norm d) ∧
+    ∃ v d', simpleUnmarshalGo env d = .ok v ∧ v.ty = structTyU env.norm d ∧
+      marshal env v (structTyU env.norm d) = .ok d' ∧ jsonEquiv (canon env d') (canon env d) = true := by
+  obtain ⟨hi, v, d', hu, hty, hm, he⟩ := doc_roundtrip_any_key_order env d hid h
+  have hg : impliedTypeGo env d = impliedType env d := impliedTypeD_eq env _ d 0 (by omega)
+  refine ⟨hg.trans hi, v, d', ?_, hty, hm, he⟩
+  simp [simpleUnmarshalGo, hg, hi, hu]
+
+/-- the audit's document `{"b":1,"a":2}` and a nested one with unsorted keys at two levels, a
+non-NFC key, a null, an empty object and a fraction meet the hypothesis (and fail `docOK`);
+a repeated key does not -/
+example : docOKU env0 (.obj ["b", "a"] [.num "1", .num "2"]) = true ∧
+    docOK env0 (.obj ["b", "a"] [.num "1", .num "2"]) = false ∧
+    docOKU envNFC0 (.obj ["z", "e\u0301", "a"] [.obj ["y", "x"] [.null, .obj [] []], .num "1.50", .arr [.str "s"]]) = true ∧
+    docOKU env0 (.obj ["a", "a"] [.num "1", .num "2"]) = false := by decide +kernel
+
+/-- THE FULL DOCUMENT CLAUSE (audit C15 item 1).  For every document (any depth) with
+representable numbers and no conflicting duplicate keys — `docValid`: objects may list their
+keys in any order and REPEAT them, also keys that coincide only after normalisation, as long as
+the members under one normalised key have `Equals` implied types — and an idempotent `norm`:
+the implied type IS the structural type (`structTyU`: per normalised key the type of its
+members), unmarshalling with it succeeds and gives a value of exactly that type, and
+re-marshalling returns the same document up to key order, number spelling and string
+normalisation, where of several members under one key the LAST in document order stands
+(in the decoder — it fills a Go map — as in `canon`, and as in plain JSON decoding). -/
+theorem doc_roundtrip_full (env : JEnv) (d : Json)
+    (hid : ∀ s, env.norm (env.norm s) = env.norm s) (h : docValid env d = true) :
+    impliedType env d = .ok (structTyU env.norm d) ∧
+    ∃ v d', unmarshalTop env d (structTyU env.norm d) = .ok v ∧ v.ty = structTyU env.norm d ∧
+      marshal env v (structTyU env.norm d) = .ok d' ∧ jsonEquiv (canon env d') (canon env d) = true := by
+  obtain ⟨p, d', hi, hu, hm, hk, hmar, he⟩ := doc_rtD env hid d h
+  have hu' : unmarshalTop env d (structTyU env.norm d) = .ok ⟨structTyU env.norm d, p⟩ := by
+    unfold unmarshalTop
+    rw [stripOpt_id_of_noOpt _ (structTyU_noOpt env.norm d)]
+    exact hu
+  refine ⟨hi, ⟨structTyU env.norm d, p⟩, d', hu', rfl, ?_, he⟩
+  unfold marshal
+  rw [marshalEntry_same (structTyU env.norm d) p _ hm hk]
+  exact hmar
+
+/-- … which is the statement `doc_roundtrip` kept above as the full strength of the clause -/
+theorem doc_roundtrip_holds : doc_roundtrip := fun env d hid h => by
+  obtain ⟨hi, v, d', hu, _, hm, he⟩ := doc_roundtrip_full env d hid h
+  simp [docCheckFull, hi, hu, hm, he]
+
+/-- … and with the code's `ImpliedType` / `SimpleJSONValue` (nesting limit, see below) -/
+theorem doc_roundtrip_full_go (env : JEnv) (d : Json)
+    (hid : ∀ s, env.norm (env.norm s) = env.norm s) (h : docValid env d = true)
+    (hd : nest d ≤ Generated.jsonMaxImpliedTypeDepth) :
+    impliedTypeGo env d = .ok (structTyU env.norm d) ∧
+    ∃ v d', simpleUnmarshalGo env d = .ok v ∧ v.ty = structTyU env.norm d ∧
+      marshal env v (structTyU env.norm d) = .ok d' ∧ jsonEquiv (canon env d') (canon env d) = true := by
+  obtain ⟨hi, v, d', hu, hty, hm, he⟩ := doc_roundtrip_full env d hid h
+  have hg : impliedTypeGo env d = impliedType env d := impliedTypeD_eq env _ d 0 (by omega)
+  refine ⟨hg.trans hi, v, d', ?_, hty, hm, he⟩
+  simp [simpleUnmarshalGo, hg, hi, hu]
+
+/-- the hypothesis is met by a document that repeats a key (with members of one type), repeats
+it in another spelling, and lists its keys unsorted; it is not met when the repeated members
+differ in type -/
+example : docValid envNFC0 (.obj ["z", "e\u0301", "a", "\u00e9", "a"]
+      [.null, .arr [.num "1"], .str "x", .arr [.num "2.50"], .str "y"]) = true ∧
+    docOKU envNFC0 (.obj ["z", "e\u0301", "a", "\u00e9", "a"]
+      [.null, .arr [.num "1"], .str "x", .arr [.num "2.50"], .str "y"]) = false ∧
+    docCheckFull envNFC0 (.obj ["z", "e\u0301", "a", "\u00e9", "a"]
+      [.null, .arr [.num "1"], .str "x", .arr [.num "2.50"], .str "y"]) = true ∧
+    docValid env0 (.obj ["a", "a"] [.num "1", .str "x"]) = false := by decide +kernel
 
 /-- an environment in which "e" + combining acute normalises to "é" (as NFC does) -/
 def envNFC : JEnv :=
@@ -368,6 +610,47 @@ theorem simple_unmarshal_typed (env : JEnv) (d : Json) (h : docOK env d = true) 
     ∃ v, simpleUnmarshal env d = .ok v ∧ v.ty = structTy env.norm d := by
   obtain ⟨hi, v, _, hu, hty, _, _⟩ := doc_roundtrip_partial env d h
   exact ⟨v, by simp [simpleUnmarshal, hi, hu], hty⟩
+
+/-! ## `ImpliedType` as the code has it: the nesting limit (/repo 0c63e6a) -/
+
+/-- `ImpliedType` (with the depth counter of type_implied.go, limit re-read from the source:
+`Generated.jsonMaxImpliedTypeDepth` = 10000) against the plain recursion `impliedType` every
+theorem above is about: on a document whose arrays and objects are nested at most 10000
+deep the two are THE SAME function (result or failure); a deeper document is never answered
+with a type (it is an error, or whatever an earlier member already failed with). -/
+theorem implied_type_go_exact (env : JEnv) (j : Json) :
+    (nest j ≤ Generated.jsonMaxImpliedTypeDepth → impliedTypeGo env j = impliedType env j) ∧
+    (nest j > Generated.jsonMaxImpliedTypeDepth → ∀ t, impliedTypeGo env j ≠ .ok t) :=
+  ⟨fun h => impliedTypeD_eq env _ j 0 (by omega), fun h => impliedTypeD_deep env _ j 0 (Nat.zero_le _) (by omega)⟩
+
+/-- THE FULL STATEMENT of the implied-type clause for the documents of `doc_roundtrip_partial`,
+about the code's function.  FALSE since /repo 0c63e6a put a nesting limit into `ImpliedType`
+(a deliberate repair of a stack exhaustion, documented in the source: not a defect) — kept
+visible; see the counterexample. -/
+def implied_type_structural_any_depth : Prop :=
+  ∀ (env : JEnv) (d : Json), docOK env d = true → impliedTypeGo env d = .ok (structTy env.norm d)
+
+/-- What holds: up to the limit.  The document round trip with the code's `ImpliedType`. -/
+theorem doc_roundtrip_go_partial (env : JEnv) (d : Json) (h : docOK env d = true)
+    (hd : nest d ≤ Generated.jsonMaxImpliedTypeDepth) :
+    impliedTypeGo env d = .ok (structTy env.norm d) ∧
+    ∃ v d', simpleUnmarshalGo env d = .ok v ∧ v.ty = structTy env.norm d ∧
+      marshal env v (structTy env.norm d) = .ok d' ∧ jsonNormEq env.norm d' d = true := by
+  obtain ⟨hi, v, d', hu, hty, hm, he⟩ := doc_roundtrip_partial env d h
+  have hg := (implied_type_go_exact env d).1 hd
+  refine ⟨hg.trans hi, v, d', ?_, hty, hm, he⟩
+  simp [simpleUnmarshalGo, hg, hi, hu]
+
+/-- COUNTEREXAMPLE to the unbounded statement: 10001 arrays inside each other around `null`
+— a valid document without any key or number — has no implied type. -/
+theorem implied_type_structural_any_depth_counterexample : ¬ implied_type_structural_any_depth := fun h =>
+  (implied_type_go_exact env0 (nestArr (Generated.jsonMaxImpliedTypeDepth + 1))).2
+    (by rw [nest_nestArr]; omega) _ (h env0 _ (docOK_nestArr env0 _))
+
+/-- the side condition is satisfiable together with `docOK` by a nested document, and the
+limit is the one of the source -/
+example : docOK env0 (.obj ["a"] [.arr [.obj [] [], .null]]) = true ∧
+    nest (.obj ["a"] [.arr [.obj [] [], .null]]) = 3 ∧ Generated.jsonMaxImpliedTypeDepth = 10000 := by decide
 
 /-! ## Sets — not proved; the full statement is false
 
